@@ -375,6 +375,16 @@ class CheckRun:
                 self.log(f"{b.kind}: {b.sig}: {b.what} (reported through the concrete failing input found by the search)")
                 self.notes.append(f"proof obligation broken: {b.sig}: {b.what}; failing input found: {concrete[0].sig}")
             real = [v for v in real if v.kind != "proof-broken"]
+        # one VIOLATION line per signature (the first case found; the number of further cases is recorded in its replay)
+        first, dup = {}, {}
+        for v in real:
+            if v.sig in first:
+                dup[v.sig] = dup.get(v.sig, 0) + 1
+            else:
+                first[v.sig] = v
+        for sig, n in dup.items():
+            first[sig].extra = dict(first[sig].extra or {}, further_cases_with_this_signature=n)
+        real = list(first.values())
         lines = []
         for v in real:
             p = self.write_replay(v)
